@@ -390,8 +390,14 @@ func runC02(r *Run) {
 			case *ssa.BinOp:
 				if x.Op == token.EQL && usesName(x.X) && usesName(x.Y) {
 					// plain equality is fine only when both sides are folded first
-					f1 := dependsOn(x.X, func(y ssa.Value) bool { c, ok := y.(*ssa.Call); return ok && strings.Contains(calleeName(&c.Call), "ToLower") }) != nil
-					f2 := dependsOn(x.Y, func(y ssa.Value) bool { c, ok := y.(*ssa.Call); return ok && strings.Contains(calleeName(&c.Call), "ToLower") }) != nil
+					f1 := dependsOn(x.X, func(y ssa.Value) bool {
+						c, ok := y.(*ssa.Call)
+						return ok && strings.Contains(calleeName(&c.Call), "ToLower")
+					}) != nil
+					f2 := dependsOn(x.Y, func(y ssa.Value) bool {
+						c, ok := y.(*ssa.Call)
+						return ok && strings.Contains(calleeName(&c.Call), "ToLower")
+					}) != nil
 					return f1 && f2, true
 				}
 			}
